@@ -304,6 +304,20 @@ class Gen:
             # strip a prefix: the first replacement starts at 0 and deletes up to a boundary near the start
             e = r.choice([b for b in bounds if b <= 4] or [0])
             out.append((0, e, '', None, 1))
+        nls = [i for i in range(n) if inner_bytes[i] == 0x0a]
+        if len(nls) >= 2 and r.random() < 0.12:
+            # line-join family: an earlier edit changes the line count, a later pure deletion starts at
+            # column > 0 and runs through its line's break (the first edit on that output line)
+            j = r.randrange(1, len(nls))
+            p1, p2 = nls[j - 1], nls[j]
+            starts = [b for b in bounds if p1 + 1 < b <= p2]
+            if starts:
+                first = (0, 0, r.choice(['new\n', 'a\nb\n', '\n']), None, 1) if r.random() < 0.6 else (nls[0], nls[0] + 1, '', None, 1)
+                if first[1] <= p1 + 1:
+                    out.append(first)
+                    out.append((r.choice(starts), p2 + 1, '', None, 1))
+                    if r.random() < 0.5:
+                        return out
         for _ in range(k):
             pool = bounds + (beyond if r.random() < 0.15 else [])
             if out and r.random() < 0.3:
